@@ -235,6 +235,21 @@ def drive(tr, pts, io, d, rng, nprng, tier, idx, cache):
     grid, dgrid, qgrid, r = cache[key]
     grid = grid.copy()
     kind = rng.choice(["nonplanar", "nonplanar", "water", "planar", "h2o_file"])
+    if idx == 0 and cache.get("__far_planar__"):
+        # every run contains planar molecules 10-29 A from the origin (float32 noise ~1e-6 A there; regression case of F11)
+        kind, t = "planar", "[1.0, 1.5, 2.5]"
+        key = (balg, n_b, oalg, n_o, t)
+        if key not in cache:
+            fg = FullGrid(f"{balg}_{n_b}" if n_b > 1 else "1", f"{oalg}_{n_o}", t)
+            cache[key] = (fg.get_full_grid_as_array(), np.asarray(fg.get_position_grid().get_o_grid().get_grid_as_array(), dtype=float),
+                          np.asarray(fg.b_rotations.get_grid_as_array(only_upper=True), dtype=float),
+                          np.asarray(fg.get_position_grid().get_radii(), dtype=float))
+        grid, dgrid, qgrid, r = cache[key]
+        grid = grid.copy()
+        cache["__far_planar__"] = False
+        force_far = True
+    else:
+        force_far = False
     p1, p2 = os.path.join(d, f"m1_{idx}.xyz"), os.path.join(d, f"m2_{idx}.xyz")
     X1, el1 = c10.make_geometry(rng, nprng, rng.choice(["single", "nonplanar", "planar"]), rng.randint(2, 6))
     c10.write_molecule(p1, X1, el1)
@@ -247,7 +262,7 @@ def drive(tr, pts, io, d, rng, nprng, tier, idx, cache):
     include_outliers = rng.random() < 0.4
     cartesian = rng.random() < 0.5
     outer = r[-1] + 0.5 * (r[-1] - r[-2])
-    mode = rng.choice(["continuous", "continuous", "own_pt", "continuous_twice"])
+    mode = rng.choice(["continuous", "continuous", "own_pt", "continuous_twice"]) if not force_far else "continuous"
     if mode == "own_pt":
         placements = grid.copy()
         if planar and r[-1] > 4.0:
@@ -257,7 +272,7 @@ def drive(tr, pts, io, d, rng, nprng, tier, idx, cache):
         if idx == 0 and cache.get("__long__"):
             n = 2200   # one long trajectory per run also in the quick tier (frame-block boundaries at 2048)
             cache["__long__"] = False
-        dist_hi = min(outer * 1.15, 4.0) if planar and rng.random() < 0.6 else outer * 1.15
+        dist_hi = min(outer * 1.15, 4.0) if planar and rng.random() < 0.6 and not force_far else outer * 1.15
         dist = nprng.uniform(max(0.3, r[0] * 0.5), max(dist_hi, r[0] * 0.5 + 0.5), size=n)
         dirs = nprng.normal(size=(n, 3))
         dirs /= np.linalg.norm(dirs, axis=1, keepdims=True)
@@ -313,7 +328,7 @@ def run_shard(spec):
     rng = random.Random(spec["rseed"])
     nprng = np.random.default_rng(spec["rseed"])
     d = tempfile.mkdtemp(prefix="verif_c11_")
-    cache = {"__long__": spec["rseed"] % 1000 == 0}
+    cache = {"__long__": spec["rseed"] % 1000 == 0, "__far_planar__": spec["rseed"] % 1000 in (1, 2, 3)}
     try:
         for it in range(spec["count"]):
             drive(tr, pts, io, d, rng, nprng, spec["tier"], it, cache)
